@@ -25,10 +25,12 @@ func CreateSavepointArtifact(fs locations.StorageLocation, savepointsPath string
 			return "", err
 		}
 
-		// Get a list of URIs that the checkpoint references.
-		files, err := recovery.ListFiles(bytes.NewBuffer(checkpointsData))
+		// Get a list of URIs that this operator checkpoint references. By the
+		// time the savepoint is created the checkpoints file may already hold
+		// newer checkpoints.
+		files, err := recovery.ListCheckpointFiles(bytes.NewBuffer(checkpointsData), opCkpt.CheckpointId)
 		if err != nil {
-			return "", err
+			return "", fmt.Errorf("listing files of operator checkpoint (%s): %v", opCkpt.DkvFileUri, err)
 		}
 		files = append(files, opCkpt.DkvFileUri) // include checkpoints uri
 
@@ -72,10 +74,10 @@ func RestoreCheckpointFromSavepointArtifact(fs locations.StorageLocation, savepo
 			return fmt.Errorf("reading checkpoints file (%s): %v", checkpointsPath, err)
 		}
 
-		// Get a list of referenced files to copy into place
-		files, err := recovery.ListFiles(bytes.NewBuffer(cpData))
+		// Get a list of the files referenced by the operator checkpoint to copy into place
+		files, err := recovery.ListCheckpointFiles(bytes.NewBuffer(cpData), opCkpt.CheckpointId)
 		if err != nil {
-			return err
+			return fmt.Errorf("listing files of operator checkpoint (%s): %v", checkpointsPath, err)
 		}
 		files = append(files, opCkpt.DkvFileUri) // Include DKV checkpoints file
 
